@@ -1172,7 +1172,7 @@ fn main() {
         "cases = (point set, float type, kernel method). Point sets: every subset of 2..5 (quick) / 2..6 (thorough) points of the 3x3 lattice, \
          the generic-position image of each (constant jitter table), the un-centred affine images offset + spacing x p of every 2..4-subset with (offset, spacing) in {(1e8,1) f64, (-1e6,0.5) f64, (1e3,0.125) f64+f32}, the empty record matrix, every multiset of 1..5 points of {0..4} on a line (duplicates up to 3x), \
          every subset of 2..5 / 2..6 of a pool of 7 three-feature points, and large sets above the neighbour-index leaf size of 16 (5x5 grid, its generic image, 20 points on a line in duplicate pairs, \
-         generic 3x3x3 cube, sub-unit copies of these scaled by 0.1 / 0.125, and 20 generic records with 4, 5, 6, 7, 9 features at scale 1 and 0.1 (+ 2/3/5-record prefixes of those); thorough also 6x6, generic 6x6 and 7x7 grids). Kernel methods Linear, Gaussian(0.5), Gaussian(2) (thorough also 0.125, 8), Polynomial(c in {0,1}, d in {1,2,3}) and Polynomial(1, 0.5 / 1.5 / 2.5), Polynomial(0.3, 2 / 1.5); f64 and f32; a fractional degree on a point set with some <x,y>+c < 0.01 is out of domain (counted). \
+         generic 3x3x3 cube, sub-unit copies of these scaled by 0.1 / 0.125, and 20 generic records with 4, 5, 6, 7, 9 features at scale 1 and 0.1 (+ 2/3/5-record prefixes of those); thorough also 6x6, generic 6x6 and 7x7 grids). Kernel methods Linear, Gaussian(0.5), Gaussian(2) (thorough also 0.125, 8), subnormal bandwidths (f64 5e-324, 1e-310; f32 1e-45, 1e-40) on the line multisets and lattice subsets of <= 3 records, Polynomial(c in {0,1}, d in {1,2,3}) and Polynomial(1, 0.5 / 1.5 / 2.5), Polynomial(0.3, 2 / 1.5); f64 and f32; a fractional degree on a point set with some <x,y>+c < 0.01 is out of domain (counted). \
          Per case: Dense and Sparse(k) for EVERY 0<k<n with LinearSearch / KdTree / BallTree, owned kernel and view: every stored cell vs the reference kernel function, \
          pattern vs the brute-force k-nearest ranking, size/sum/column/diagonal/to_upper_triangle/dot(3 right-hand sides) vs the stored matrix, documented panics (k in {0,n,n+1}, dot shape, column index). \
          Clustering sweep on every kernel of a case with a distinct matrix (quick: f64 Gaussian, Linear, Polynomial(1,2); thorough: all methods, f64 and f32; large sets: generic Gaussian kernels, dense and k in {1,2,5}): \
@@ -1346,6 +1346,13 @@ fn main() {
                     ks: Some(if ctx.thorough() { vec![1, 17] } else { vec![] }),
                 });
             }
+        }
+    }
+    // subnormal Gaussian bandwidths ("Gaussian with any bandwidth"): 1/eps overflows, -d/eps does not
+    // for d = 0; small sets incl. the line multisets with duplicate rows
+    for (fam, pts, d) in sets.iter().filter(|s| (s.0 == "line_multiset" || s.0 == "lattice3x3") && s.1.len() <= 3) {
+        for (f, eps) in [("f64", 5e-324), ("f64", 1e-310), ("f32", 1e-45), ("f32", 1e-40)] {
+            cases.push(Case { family: fam.clone(), points: pts.clone(), dim: *d, float: f.into(), kernel: "gaussian".into(), p1: eps, p2: 0.0, cluster: true, layouts: false, builders: false, ks: None });
         }
     }
     // heaviest first (clustering sweeps on the largest sets), so the parallel sweep balances
